@@ -1312,6 +1312,25 @@ fn gen_irs(r: &mut StdRng, sys: &Sys, sh: &Shadow) -> Value {
     }
 }
 
+/// "none" is the specification's marker for "no element": a generator that found nothing to pick
+/// falls back to the first element of the universe instead of creating an element of that name
+fn denone(op: &mut Value, sys: &Sys) {
+    let kind = s(op, "op").to_string();
+    let issuer_op = matches!(kind.as_str(), "add_issuer" | "remove_issuer" | "update_issuer");
+    if op["a"] == "none" && kind != "bind_batch" {
+        op["a"] = json!(if issuer_op { sys.u2[0].clone() } else { sys.u1[0].clone() });
+    }
+    if op["b"] == "none" && matches!(kind.as_str(), "allow" | "remove" | "add_module" | "remove_module") {
+        op["b"] = json!(sys.u2[0].clone());
+    }
+    if op["b"] == "none" && kind == "recover" {
+        op["b"] = json!(sys.u1[0].clone());
+    }
+    if op["c"] == "none" && matches!(kind.as_str(), "allow" | "remove") {
+        op["c"] = json!(sys.u3[0].clone());
+    }
+}
+
 /// the runs of one driver cycle; the two heavy ones reach 10 000 tokens / 5 000 documents
 const CYCLE: [(&str, &str); 15] = [
     ("keys", "small"), ("cti", "small"), ("binder", "small"), ("docs", "small"), ("irs", "small"), ("modules", "small"),
@@ -1359,7 +1378,8 @@ fn drive_run(r: &mut StdRng, t: &mut Trace, fl: &str, regime: &str, len: usize) 
             ("irs", _) => Some(gen_irs(r, &sys, &sh)),
             _ => Some(gen_modules(r, &sys, &sh)),
         };
-        let Some(op) = op else { break };
+        let Some(mut op) = op else { break };
+        denone(&mut op, &sys);
         let ev = sys.step(&op);
         sh.apply(&op, &ev);
         // phases: grow until additions have been refused a few times, shrink for a while, grow again
